@@ -96,6 +96,13 @@ func (f changeFinder) changed() {
 func (f changeFinder) commentsFor(n *value) (before, after []*ast.Comment) {
 	pos, end := n.Pos(), n.End()
 	for _, cg := range n.Comments {
+		// A group that lost all of its comments together with the code
+		// they were in has no position anymore. The snapshot still
+		// refers to it.
+		if len(cg.List) == 0 {
+			continue
+		}
+
 		if cg.End() <= pos {
 			before = append(before, cg.List...)
 		}
